@@ -2,10 +2,11 @@
 (* State machine over CardModel for exhaustive exploration by TLC (C12).       *)
 (* Setup(k) builds a provider for configuration Configs[k]; Measure records    *)
 (* one value under one attribute set on one instrument (for asynchronous       *)
-(* instruments: one observation made by the callback of the next collection);  *)
-(* Collect is one collection cycle of the reader.  Every explored edge is      *)
-(* printed (EDGE json) and replayed through the public API of the real SDK;    *)
-(* `peek` is what a collection issued in that state must return.               *)
+(* instruments: one observation made by the callback of the next collection of *)
+(* each reader); Collect(r) is one collection cycle of reader r.  Every        *)
+(* explored edge is printed (EDGE json) and replayed through the public API of *)
+(* the real SDK; `peek[r]` is what a collection by reader r issued in that     *)
+(* state must return.                                                          *)
 EXTENDS CardModel, TLC, Json
 
 CONSTANTS Configs,    \* sequence of configurations
@@ -13,7 +14,7 @@ CONSTANTS Configs,    \* sequence of configurations
           MaxSteps    \* bound on Measure/Collect steps after Setup
 
 VARIABLES c,          \* 0 = nothing built yet, else index into Configs
-          ss,         \* aggregator state per entry of Table(Configs[c])
+          ss,         \* ss[r][t]: aggregator state of reader r per entry of its Table
           steps, act
 vars == <<c, ss, steps, act>>
 
@@ -25,56 +26,69 @@ SetTab == TLCEval(Sets)
 NCfg == Len(CfgTab)
 ASSUME \A k \in 1..NCfg : InDomain(CfgTab[k])
 
-(* views, streams and identities are resolved once per configuration (constant *)
-(* level definitions are evaluated once by TLC; TLCEval turns the lazily        *)
-(* evaluated function constructors into tables)                                *)
-Tabs == TLCEval([k \in 1..NCfg |-> TLCEval(Table(CfgTab[k]))])
-FMaps == TLCEval([k \in 1..NCfg |->
-                    TLCEval([i \in 1..Len(CfgTab[k].insts) |-> TLCEval(Feeds(CfgTab[k], Tabs[k], i))])])
+(* views, streams and identities are resolved once per configuration and reader *)
+(* (constant level definitions are evaluated once by TLC; TLCEval turns the     *)
+(* lazily evaluated function constructors into tables)                         *)
+NR(k) == Len(CfgTab[k].readers)
+Tabs == TLCEval([k \in 1..NCfg |-> TLCEval([r \in 1..NR(k) |-> TLCEval(Table(CfgTab[k], CfgTab[k].readers[r]))])])
+FMaps == TLCEval([k \in 1..NCfg |-> TLCEval([r \in 1..NR(k) |->
+                    TLCEval([i \in 1..Len(CfgTab[k].insts) |->
+                               TLCEval(Feeds(CfgTab[k], CfgTab[k].readers[r], Tabs[k][r], i))])])])
 Cfg == CfgTab[c]
-Tab == Tabs[c]
+Rds == 1..NR(c)
+Tab(r) == Tabs[c][r]
+Temp(r) == Cfg.readers[r].temp
 ValsOf(kind) == IF kind \in {"updown", "oupdown"} THEN {-1, 2} ELSE {1, 2}
 
 Init == c = 0 /\ ss = <<>> /\ steps = 0 /\ act = [op |-> "Init"]
 
 Setup(k) == /\ c = 0
             /\ c' = k
-            /\ ss' = [t \in 1..Len(Tabs[k]) |-> NewAgg]
+            /\ ss' = [r \in 1..NR(k) |-> [t \in 1..Len(Tabs[k][r]) |-> NewAgg]]
             /\ steps' = 0
             /\ act' = [op |-> "S", cfg |-> CfgTab[k]]
 
+(* one measurement (for an observable: one observation its callback makes at    *)
+(* the next collection of each reader) reaches the matching streams of EVERY    *)
+(* reader exactly once                                                          *)
 Measure(i, a, v) == /\ steps < MaxSteps
-                    /\ ss' = ApplyF(Cfg.limit, Tab, FMaps[c][i], ss, a, v)
+                    /\ ss' = [r \in Rds |-> ApplyF(Cfg.limit, Tab(r), FMaps[c][r][i], ss[r], a, v)]
                     /\ steps' = steps + 1
                     /\ act' = [op |-> "M", i |-> i, attrs |-> a, v |-> v]
                     /\ UNCHANGED c
 
-Collect == /\ steps < MaxSteps
-           /\ ss' = Reset(Cfg, Tab, ss)
-           /\ steps' = steps + 1
-           /\ act' = [op |-> "C"]
-           /\ UNCHANGED c
+(* reader r collects: only its own aggregators are reported and reset; the      *)
+(* collections of different readers interleave arbitrarily                      *)
+Collect(r) == /\ steps < MaxSteps
+              /\ ss' = [ss EXCEPT ![r] = Reset(Temp(r), Tab(r), ss[r])]
+              /\ steps' = steps + 1
+              /\ act' = [op |-> "C", r |-> r]
+              /\ UNCHANGED c
 
 Next == \/ \E k \in 1..NCfg : Setup(k)
         \/ (c # 0 /\ \E i \in 1..Len(Cfg.insts), a \in SetTab : \E v \in ValsOf(Cfg.insts[i].kind) : Measure(i, a, v))
-        \/ (c # 0 /\ Collect)
+        \/ (c # 0 /\ \E r \in Rds : Collect(r))
 Spec == Init /\ [][Next]_vars
 
 View == <<c, ss>>
-Proj(k, s) == [c |-> k, ss |-> s, peek |-> IF k = 0 THEN {} ELSE Report(CfgTab[k], Tabs[k], s)]
+(* peek[r] = what a collection by reader r issued in this state must return *)
+Peek(k, s) == [r \in 1..NR(k) |-> Report(CfgTab[k].readers[r].temp, Tabs[k][r], s[r])]
+Proj(k, s) == [c |-> k, ss |-> s, peek |-> IF k = 0 THEN <<>> ELSE Peek(k, s)]
 EmitEdge == PrintT("EDGE " \o ToJson([from |-> Proj(c, ss), act |-> act', to |-> Proj(c', ss')]))
 
 -----------------------------------------------------------------------------
 (* the statement on every reachable model state *)
 L == Cfg.limit
-Live == {t \in 1..Len(Tab) : Mode(Tab[t].agg, Tab[t].kind) # "drop"}
-Bound == c # 0 => \A t \in Live :
-            /\ (L > 0 => Cardinality(ss[t].cells) <= L)
-            /\ (L > 0 => Cardinality({x \in ss[t].cells : ~x.ovf}) <= L - 1)
-            /\ Cardinality({x \in ss[t].cells : x.ovf}) <= 1
-            /\ \A x \in ss[t].cells : x.ovf => (x.attrs = NoAttrs /\ L > 0)
-            /\ \A x, y \in ss[t].cells : (x.ovf = y.ovf /\ x.attrs = y.attrs) => x = y
-ReportBound == c # 0 => \A m \in Report(Cfg, Tab, ss) : (L > 0 => Cardinality(m.pts) <= L) /\ m.pts # {}
-DropSilent == c # 0 => \A m \in Report(Cfg, Tab, ss) : m.agg # "drop"
+Live(r) == {t \in 1..Len(Tab(r)) : Mode(Tab(r)[t].agg, Tab(r)[t].kind) # "drop"}
+Rep(r) == Report(Temp(r), Tab(r), ss[r])
+Bound == c # 0 => \A r \in Rds : \A t \in Live(r) :
+            LET cs == ss[r][t].cells IN
+            /\ (L > 0 => Cardinality(cs) <= L)
+            /\ (L > 0 => Cardinality({x \in cs : ~x.ovf}) <= L - 1)
+            /\ Cardinality({x \in cs : x.ovf}) <= 1
+            /\ \A x \in cs : x.ovf => (x.attrs = NoAttrs /\ L > 0)
+            /\ \A x, y \in cs : (x.ovf = y.ovf /\ x.attrs = y.attrs) => x = y
+ReportBound == c # 0 => \A r \in Rds : \A m \in Rep(r) : (L > 0 => Cardinality(m.pts) <= L) /\ m.pts # {}
+DropSilent == c # 0 => \A r \in Rds : \A m \in Rep(r) : m.agg # "drop"
 Inv == Bound /\ ReportBound /\ DropSilent
 =============================================================================
